@@ -22,7 +22,7 @@ BOUNDS = {'quick': 'all operator sequences of length <= 4 (1554 skeletons) x una
           'thorough': 'all operator sequences of length <= 4 (1554 skeletons) x ALL unary-minus placements x 6 renderings; accepted language: length <= 4'}
 OUTSIDE = ['numeric values of transcendental ufuncs (numpy C code)', 'IEEE rounding', 'symbolic complex variable bindings (concrete complex bindings of every numeric type are covered)', 'nesting deeper than the generated skeletons',
            'the accepted language beyond the string-length bound']
-DEADLINE = {'quick': 170, 'thorough': 2400}
+DEADLINE = {'quick': 600, 'thorough': 2400}
 FUNCS = ['expressions.MathParser.parse/raw_parse/get_grammar (real pyparsing)', 'MathExpression.eval/eval_node', 'MathExpression.eval_power', 'eval_negation',
          'eval_parallel', 'eval_product', 'eval_sum', 'eval_number', 'eval_variable', 'robust_pow.robust_pow', 'expressions.evaluator']
 STUBS = ['pyparsing leaf shims (language harness only)']
